@@ -483,6 +483,7 @@ func genRTT() *rapid.Generator[int64] {
 
 func genSamples(t *rapid.T, c LimitCfg, maxN int) []Sample {
 	dropPct := rapid.SampledFrom([]int{0, 5, 30, 100}).Draw(t, "droppct")
+	startsOutOfOrder := !c.Windowed && rapid.Bool().Draw(t, "startsOutOfOrder")
 	one := rapid.Custom(func(t *rapid.T) Sample {
 		s := Sample{RTT: genRTT().Draw(t, "rtt")}
 		switch rapid.IntRange(0, 6).Draw(t, "infk") {
@@ -504,6 +505,9 @@ func genSamples(t *rapid.T, c LimitCfg, maxN int) []Sample {
 		s.Drop = rapid.IntRange(0, 99).Draw(t, "drop") < dropPct
 		if c.Windowed {
 			s.Start = rapid.Int64Range(0, 200_000_000).Draw(t, "dt") // made cumulative below
+		} else if startsOutOfOrder {
+			// completions are reported in any order relative to when their requests started
+			s.Start = rapid.Int64Range(0, 1<<40).Draw(t, "start")
 		}
 		return s
 	})
